@@ -307,7 +307,19 @@ func genDHistory(r *core.Rand, tier string) core.Case {
 	for p := 0; p < phases && len(lines) < 170; p++ {
 		k := r.Intn(2)
 		L := names[k]
-		switch r.Pick(5, 3, 3, 2, 2) {
+		switch r.Pick(5, 3, 3, 2, 2, 4) {
+		case 5: // range over the list, the body mutating it; then the handles are used again
+			if len(g.l[k]) < 2 {
+				pb(k)
+				pb(k)
+				pb(k)
+			}
+			for i, m := 0, r.Range(1, 3); i < m; i++ {
+				lines = append(lines, dLoopLine(r, g, k))
+			}
+			if len(g.l[k]) > 0 {
+				probe(k, g.l[k][r.Intn(len(g.l[k]))])
+			}
 		case 0: // the same node removed and re-inserted many times through the *Node entry points
 			if len(g.l[k]) == 0 {
 				pb(k)
@@ -576,10 +588,73 @@ func genSHistory(r *core.Rand, tier string) core.Case {
 			add("rm 0")
 		}
 	}
+	var other []int // the second list (line `flip` exchanges the two)
+	flip := func() {
+		add("flip")
+		ids, other = other, ids
+	}
+	// every node a removing call returns must be detached: put it, at once, through a *Node entry
+	// point into this or into the other list, then traverse
+	removeAndRelink := func() {
+		if len(ids) == 0 {
+			fill(2)
+		}
+		n := len(ids)
+		j := []int{0, 0, n - 1, n / 2, r.Intn(n)}[r.Intn(5)]
+		e := ids[j]
+		if j == 0 && r.Bool() {
+			add("rmf")
+		} else {
+			add("rm %d", j)
+		}
+		ids = del(ids, e)
+		cross := r.Chance(50)
+		if cross {
+			flip()
+		}
+		m := len(ids)
+		switch r.Intn(4) {
+		case 0:
+			add("pfn %d", e)
+			ids = insAt(ids, 0, e)
+		case 1:
+			add("pbn %d", e)
+			ids = append(ids, e)
+		case 2: // clamped: i >= Len goes through PushBackNode
+			add("insn %d %d", m+r.Intn(2), e)
+			ids = append(ids, e)
+		default:
+			c := r.Range(0, m)
+			add("insn %d %d", c, e)
+			ids = insAt(ids, c, e)
+		}
+		add("next %d", e)
+		if r.Bool() {
+			add("walkbody")
+		} else {
+			add("len")
+		}
+		if cross {
+			flip()
+			add("back")
+		}
+	}
 	fill(r.Range(1, 6))
 	phases := r.Range(2, 5)
 	for p := 0; p < phases && len(lines) < 170; p++ {
-		switch r.Pick(4, 4, 2) {
+		switch r.Pick(4, 4, 2, 5, 3) {
+		case 3:
+			for i, m := 0, r.Range(1, 6); i < m; i++ {
+				removeAndRelink()
+			}
+		case 4:
+			if len(ids) < 2 {
+				fill(3)
+			}
+			for i, m := 0, r.Range(1, 3); i < m; i++ {
+				lines = append(lines, sLoopLine(r, &ids, &det, &next))
+			}
+			add("back")
 		case 0: // fill – drain – refill: head/tail/len after each phase
 			drain()
 			fill(r.Range(1, 7))
@@ -624,4 +699,242 @@ func genSHistory(r *core.Rand, tier string) core.Case {
 		}
 	}
 	return core.Case{Lines: lines, Tag: "history"}
+}
+
+// ---------------------------------------------------------------- loops with a mutating body
+
+// dLoopLine: `allbody`/`walkbody` on list k. The body acts, at a few iterations, on handles chosen
+// relative to the cursor (current node, successor, successor's successor, predecessor, any node,
+// removed and foreign ones); the simulation follows the container/list loop (Next after the body).
+func dLoopLine(r *core.Rand, g *dSim, k int) string {
+	names := []string{"A", "B"}
+	L := names[k]
+	line := "allbody " + L
+	if r.Chance(35) {
+		line = "walkbody " + L
+	}
+	cur := -1
+	if len(g.l[k]) > 0 {
+		cur = g.l[k][0]
+	}
+	acts := r.Range(1, 3)
+	start := g.next // handles made inside the loop cannot be named in the script
+	for i := 0; cur >= 0 && i < 300; i++ {
+		n := len(g.l[k])
+		if acts > 0 && (r.Chance(45) || i == 0 && r.Chance(50)) {
+			acts--
+			ci := idxOf(g.l[k], cur)
+			rel0 := func() int { // a handle near the cursor
+				switch r.Pick(4, 6, 2, 2, 2, 1, 1) {
+				case 0:
+					return cur
+				case 1:
+					if ci+1 < n {
+						return g.l[k][ci+1]
+					}
+				case 2:
+					if ci+2 < n {
+						return g.l[k][ci+2]
+					}
+				case 3:
+					if ci > 0 {
+						return g.l[k][ci-1]
+					}
+				case 4:
+					return g.l[k][r.Intn(n)]
+				case 5:
+					if len(g.det) > 0 {
+						return g.det[r.Intn(len(g.det))]
+					}
+				case 6:
+					if m := len(g.l[1-k]); m > 0 {
+						return g.l[1-k][r.Intn(m)]
+					}
+				}
+				return cur
+			}
+			rel := func() int {
+				for try := 0; try < 6; try++ {
+					if e := rel0(); e < start {
+						return e
+					}
+				}
+				return 2 // the first node ever allocated (in the list, removed, or foreign)
+			}
+			if start <= 2 {
+				break
+			}
+			tok := ""
+			switch r.Pick(6, 2, 3, 3, 3, 3, 2, 2, 1) {
+			case 0:
+				e := rel()
+				tok = fmt.Sprintf("rm:%s:%d", L, e)
+				if idxOf(g.l[k], e) >= 0 {
+					g.l[k] = del(g.l[k], e)
+					g.det = append(g.det, e)
+				}
+			case 1:
+				e := rel()
+				tok = fmt.Sprintf("mtf:%s:%d", L, e)
+				if idxOf(g.l[k], e) >= 0 {
+					g.l[k] = insAt(del(g.l[k], e), 0, e)
+				}
+			case 2:
+				e := rel()
+				tok = fmt.Sprintf("mtb:%s:%d", L, e)
+				if idxOf(g.l[k], e) >= 0 {
+					g.l[k] = append(del(g.l[k], e), e)
+				}
+			case 3, 4:
+				e, m := rel(), rel()
+				op, off := "mb", 0
+				if r.Bool() {
+					op, off = "ma", 1
+				}
+				tok = fmt.Sprintf("%s:%s:%d:%d", op, L, e, m)
+				if e != m && idxOf(g.l[k], e) >= 0 && idxOf(g.l[k], m) >= 0 {
+					s := del(g.l[k], e)
+					g.l[k] = insAt(s, idxOf(s, m)+off, e)
+				}
+			case 5, 6:
+				m := rel()
+				op, off := "ia", 1
+				if r.Chance(35) {
+					op, off = "ib", 0
+				}
+				tok = fmt.Sprintf("%s:%s:%d:%d", op, L, r.Range(0, 9), m)
+				if j := idxOf(g.l[k], m); j >= 0 {
+					g.l[k] = insAt(g.l[k], j+off, g.next)
+					g.next++
+				}
+			case 7:
+				if r.Bool() {
+					tok = fmt.Sprintf("pb:%s:%d", L, r.Range(0, 9))
+					g.l[k] = append(g.l[k], g.next)
+				} else {
+					tok = fmt.Sprintf("pf:%s:%d", L, r.Range(0, 9))
+					g.l[k] = insAt(g.l[k], 0, g.next)
+				}
+				g.next++
+			case 8:
+				tok = "break"
+			}
+			line += fmt.Sprintf(" %d:%s", i, tok)
+			if tok == "break" {
+				break
+			}
+		}
+		// Next after the body: a removed node has no successor
+		ci := idxOf(g.l[k], cur)
+		if ci < 0 || ci+1 >= len(g.l[k]) {
+			cur = -1
+		} else {
+			cur = g.l[k][ci+1]
+		}
+	}
+	return line
+}
+
+// sLoopLine: the same for an SList (body acts by index, relative to the cursor's index).
+func sLoopLine(r *core.Rand, ids, det *[]int, next *int) string {
+	line := "allbody"
+	if r.Chance(40) {
+		line = "walkbody"
+	}
+	cur := -1
+	if len(*ids) > 0 {
+		cur = (*ids)[0]
+	}
+	clampTo := func(i, n int) int {
+		if i < 0 {
+			return 0
+		}
+		if i > n {
+			return n
+		}
+		return i
+	}
+	acts := r.Range(1, 3)
+	start := *next // handles made inside the loop cannot be named in the script
+	for i := 0; cur >= 0 && i < 300; i++ {
+		n := len(*ids)
+		if acts > 0 && (r.Chance(45) || i == 0 && r.Chance(50)) {
+			acts--
+			ci := idxOf(*ids, cur)
+			rel := func() int {
+				return []int{ci, ci + 1, ci + 1, ci + 2, ci - 1, 0, n - 1, n, -1}[r.Intn(9)]
+			}
+			tok := ""
+			switch r.Pick(6, 2, 4, 2, 2, 2, 1) {
+			case 0:
+				j := rel()
+				tok = fmt.Sprintf("rm:%d", j)
+				if j >= 0 && j < n {
+					*det = append(*det, (*ids)[j])
+					*ids = del(*ids, (*ids)[j])
+				}
+			case 1:
+				tok = "rmf"
+				if n > 0 {
+					*det = append(*det, (*ids)[0])
+					*ids = (*ids)[1:]
+				}
+			case 2:
+				j := rel()
+				tok = fmt.Sprintf("ins:%d:%d", j, r.Range(0, 9))
+				*ids = insAt(*ids, clampTo(j, n), *next)
+				*next++
+			case 3:
+				if r.Bool() {
+					tok = fmt.Sprintf("pb:%d", r.Range(0, 9))
+					*ids = append(*ids, *next)
+				} else {
+					tok = fmt.Sprintf("pf:%d", r.Range(0, 9))
+					*ids = insAt(*ids, 0, *next)
+				}
+				*next++
+			case 4:
+				tok = fmt.Sprintf("swap:%d:%d", rel(), rel())
+			case 5: // a node removed earlier (possibly in this very loop) comes back
+				if len(*det) == 0 {
+					tok = "len"
+					break
+				}
+				e := (*det)[len(*det)-1]
+				if r.Chance(30) {
+					e = (*det)[r.Intn(len(*det))]
+				}
+				if e >= start {
+					tok = "back"
+					break
+				}
+				*det = del(*det, e)
+				switch r.Intn(3) {
+				case 0:
+					tok = fmt.Sprintf("pbn:%d", e)
+					*ids = append(*ids, e)
+				case 1:
+					tok = fmt.Sprintf("pfn:%d", e)
+					*ids = insAt(*ids, 0, e)
+				default:
+					j := []int{n, n + 1, ci + 1, 0}[r.Intn(4)]
+					tok = fmt.Sprintf("insn:%d:%d", j, e)
+					*ids = insAt(*ids, clampTo(j, n), e)
+				}
+			case 6:
+				tok = "break"
+			}
+			line += fmt.Sprintf(" %d:%s", i, tok)
+			if tok == "break" {
+				break
+			}
+		}
+		ci := idxOf(*ids, cur)
+		if ci < 0 || ci+1 >= len(*ids) {
+			cur = -1
+		} else {
+			cur = (*ids)[ci+1]
+		}
+	}
+	return line
 }
